@@ -68,6 +68,22 @@ class Elem(Cell):
             wl.setdefault(self.idx, set()).add(v)
 
 
+class ListElem(Cell):
+    """lvalue of one element of a std::array / braced table of objects (python list)"""
+    __slots__ = ("lst", "idx")
+
+    def __init__(self, lst, idx):
+        self.lst, self.idx = lst, idx
+        self.name = "table[%s]" % idx
+        self.serial = 1 << 60
+
+    def get(self):
+        return self.lst[self.idx]
+
+    def set(self, v):
+        self.lst[self.idx] = v
+
+
 class PtrInto:
     """pointer into an array: base + offset"""
 
@@ -158,6 +174,10 @@ class ConcDomain(Domain):
     def clone_obj(self, o):
         n = Obj(o.cls)
         for k, c in o.f.items():
+            ft = self.field_type(o, k)
+            if ft.rstrip().endswith(("&", "*")) or ft.rstrip().endswith("* const"):
+                n.f[k] = c          # a reference / pointer member of the copy denotes the same object as the original's
+                continue
             x = c.get()
             if isinstance(x, Arr):
                 x = self.clone_arr(x)
@@ -319,6 +339,13 @@ class ConcDomain(Domain):
         raise AnalysisBroken("binary %s on %r, %r at %s" % (op, a, b, ir.locstr(e)))
 
     def index(self, base, idx, e, fr):
+        if isinstance(base, list):
+            if not isinstance(idx, int) or not (0 <= idx < len(base)):
+                o = ("table of %d entries" % len(base), idx, len(base), ir.locstr(e))
+                self.oob.append(o) if hasattr(self, "oob") else None
+                GLOBAL_OOB.append(o)
+                raise AnalysisBroken("subscript %r into a table of %d entries at %s" % (idx, len(base), ir.locstr(e)))
+            return ListElem(base, idx)
         if isinstance(base, Arr):
             return Elem(base, idx, self, ir.locstr(e))
         if isinstance(base, PtrInto):
@@ -465,6 +492,41 @@ class ConcDomain(Domain):
                         raise AnalysisBroken("callable %r in std::transform not modelled at %s" % (f_, site))
                     self.index(dst.arr, dst.off + i, e, fr).set(r_)
                 return PtrInto(dst.arr, dst.off + max(n_, 0))
+        if k == "Construct" and (e.get("t") or "").replace("const ", "").startswith("std::pair<") and not e.get("copy") and not e.get("move") and len(args) in (0, 2):
+            vs_ = [it.rvalue(a_, fr) for a_ in args] if args else [0, 0]
+            return {"first": Cell(vs_[0], "first"), "second": Cell(vs_[1], "second")}
+        if base == "std::get" and len(args) == 1 and isinstance((lambda o_: o_.get() if isinstance(o_, Cell) else o_)(it.eval(args[0], fr)), list):
+            m_ = re.match(r"^std::get<\s*(\d+)", callee)
+            o_ = it.eval(args[0], fr)
+            o_ = o_.get() if isinstance(o_, Cell) else o_
+            return self.index(o_, int(m_.group(1)), e, fr)
+        if base == "std::get" and len(args) == 1:
+            # std::get<I>(pair / array): the I-th member as an lvalue
+            m_ = re.match(r"^std::get<\s*(\d+)", callee)
+            o_ = it.eval(args[0], fr)
+            o_ = o_.get() if isinstance(o_, Cell) else o_
+            if m_ and isinstance(o_, dict) and "first" in o_ and "second" in o_ and int(m_.group(1)) in (0, 1):
+                return o_["first" if int(m_.group(1)) == 0 else "second"]
+            if m_ and isinstance(o_, Arr):
+                return self.elem_class()(o_, int(m_.group(1)), self, site)
+        if base == "std::accumulate" and len(args) in (3, 4):
+            vals_ = [it.rvalue(a_, fr) for a_ in args]
+            a_, b_ = vals_[0], vals_[1]
+            if isinstance(a_, PtrInto) and isinstance(b_, PtrInto) and a_.arr is b_.arr:
+                acc = vals_[2]
+                for i in range(a_.off, b_.off):
+                    x_ = self.index(a_.arr, i, e, fr).get()
+                    if len(vals_) == 4:
+                        f_ = vals_[3]
+                        if isinstance(f_, tuple) and f_ and f_[0] == "lambda":
+                            acc = self.call_lambda(f_, [acc, x_], e)
+                        elif isinstance(f_, tuple) and f_ and f_[0] == "arith-functor":
+                            acc = self.binop({"plus": "+", "minus": "-", "multiplies": "*", "divides": "/"}[f_[1]], acc, x_, e, fr)
+                        else:
+                            raise AnalysisBroken("callable %r in std::accumulate not modelled at %s" % (f_, site))
+                    else:
+                        acc = self.binop("+", acc, x_, e, fr)       # left fold, the order the standard prescribes
+                return acc
         if base == "std::copy_n" and len(args) == 3:
             a, n_, c = it.rvalue(args[0], fr), it.rvalue(args[1], fr), it.rvalue(args[2], fr)
             if isinstance(a, PtrInto) and isinstance(c, PtrInto) and isinstance(n_, int):
@@ -521,6 +583,17 @@ class ConcDomain(Domain):
             this = it.eval(e["this"], fr)
             if isinstance(this, Cell):
                 this = this.get()
+        if isinstance(this, list):
+            if mname == "size":
+                return len(this)
+            if mname == "empty":
+                return not this
+            if mname in ("at", "operator[]") and len(args) == 1:
+                return self.index(this, it.rvalue(args[0], fr), e, fr)
+            if mname == "front":
+                return self.index(this, 0, e, fr)
+            if mname == "back":
+                return self.index(this, len(this) - 1, e, fr)
         if isinstance(this, Arr):
             if mname == "size":
                 return this.length
@@ -570,6 +643,42 @@ class ConcDomain(Domain):
             if mname == "at":
                 return self.elem_class()(this, it.rvalue(args[0], fr), self, site)
         return NotImplemented
+
+    def range_for(self, s, fr):
+        """for (T x : range) over a vector / array / braced list; `auto [a, b] : range` over pairs"""
+        it = self.interp
+        from .interp import BreakEx, ContinueEx
+        r = it.eval(s["range"], fr)
+        r = r.get() if isinstance(r, Cell) else r
+        v = s["var"]
+        is_ref = (v.get("t") or "").rstrip().endswith("&")
+        if isinstance(r, Arr):
+            if r.length is None:
+                raise AnalysisBroken("range-for over an array of unknown length at %s" % ir.locstr(s))
+            objs = getattr(r, "objs", None)
+            items = [(objs[i] if objs is not None else self.elem_class()(r, i, self, ir.locstr(s))) for i in range(r.length)]
+        elif isinstance(r, (list, tuple)) and not (isinstance(r, tuple) and r and isinstance(r[0], str)):
+            items = list(r)
+        else:
+            raise AnalysisBroken("range-for over %r not modelled at %s" % (r, ir.locstr(s)))
+        for x in items:
+            if s.get("bindings"):
+                o = x.get() if isinstance(x, Cell) else x
+                if not (isinstance(o, dict) and "first" in o and "second" in o and len(s["bindings"]) == 2):
+                    raise AnalysisBroken("structured binding over %r in a range-for not modelled at %s" % (o, ir.locstr(s)))
+                for b, key in zip(s["bindings"], ("first", "second")):
+                    c = o[key]
+                    fr.vars[b["id"]] = c if is_ref else Cell(c.get() if isinstance(c, Cell) else c, b["name"])
+            elif isinstance(x, Cell):
+                fr.vars[v["id"]] = x if is_ref else Cell(self.copy_value(x.get(), v.get("t", "")), v["name"])
+            else:
+                fr.vars[v["id"]] = Cell(x, v["name"])
+            try:
+                it.exec(s["body"], fr)
+            except BreakEx:
+                break
+            except ContinueEx:
+                pass
 
     def vector_assign(self, arr, n, v, e, fr):
         arr.length = n
